@@ -261,6 +261,14 @@ def isInRange6 (i start stop : IPv6) : Bool :=
 
 /-! ## TCP port ranges -/
 
+/-- the regular expression literal of `NewTCPPortRangeFromString` that `isPortNum` / `portRangeMatch` below transliterate
+    (compared with the literal in the current source by `consts_match_model_regexps`) -/
+def portRangeRegexp : String :=
+  "^\\s*(?:[0-9]|[1-9]\\d{1,3}|[1-5]\\d{4}|6[0-4]\\d{3}|65[0-4]\\d{2}|655[0-2]\\d|6553[0-5])\\s*-\\s*(?:[0-9]|[1-9]\\d{1,3}|[1-5]\\d{4}|6[0-4]\\d{3}|65[0-4]\\d{2}|655[0-2]\\d|6553[0-5])\\s*$"
+
+/-- the regular expression literal of `ParseLMNTHashes` that `hashesMatch` transliterates -/
+def lmntRegexp : String := "(?i)^([0-9a-f]{32})?(:[0-9a-f]{32})?$"
+
 /-- `\s` of Go's `regexp` (RE2): `[\t\n\f\r ]` -/
 def isReSpace (c : UInt8) : Bool := c == 9 || c == 10 || c == 12 || c == 13 || c == 32
 def isDigit (c : UInt8) : Bool := 48 ≤ c && c ≤ 57
